@@ -71,7 +71,7 @@ func ruleGuardedWrite(c *Ctx) {
 		return false
 	}, 1, "WriteRecords is reachable only through the `same number of columns` edge", "records are queued although the request has a different number of columns than the bucket")
 	// a failing coercion aborts the write
-	c.checkErrorsNotDropped(rule, []string{"(*utils/io.ColumnSeries).CoerceColumnType"}, func(f *Func) bool { return f.Key == fnWriteCSM }, 1,
+	c.checkErrorsNotDropped(rule, []string{"(*utils/io.ColumnSeries).CoerceColumnType"}, c.closureScope(fnWriteCSM), 1,
 		"a column that cannot be converted to the bucket's type must reject the write", false)
 }
 
